@@ -366,79 +366,11 @@ class RepeatMax(Expression):
         return f"{self.expression}{{,{self.number}}}"
 
     def parse(self, state: ParserState, pairs: list[Pair]) -> bool:
-        if self.number == 0:
-            return True
-
-        children: list[Pair] = []
-        accumulator: list[Pair] = []
-        match_count = 0
-        state.checkpoint()
-
-        matched = self.expression.parse(state, accumulator)
-
-        if not matched:
-            state.restore()
-            return False
-
-        match_count += 1
-
-        while True:
-            state.checkpoint()
-            state.parse_trivia(children)
-            matched = self.expression.parse(state, children)
-
-            if not matched:
-                state.restore()
-                break
-
-            match_count += 1
-            state.ok()
-            accumulator.extend(children)
-            children.clear()
-
-            if match_count == self.number:
-                break
-
-        if match_count <= self.number:
-            pairs.extend(accumulator)
-            state.ok()
-            return True
-
-        state.restore()
-        return False
+        return _unrolled(self).parse(state, pairs)
 
     def generate(self, gen: Builder, matched_var: str, pairs_var: str) -> None:
         """Emit Python code for a bounded repetition expression (E{,max})."""
-        gen.writeln(f"# <RepeatMax n={self.number}>")
-
-        tmp_pairs = gen.new_temp("children")
-        count_var = gen.new_temp("count")
-
-        gen.writeln(f"{tmp_pairs}: list[Pair] = []")
-        gen.writeln(f"{count_var} = 0")
-
-        gen.writeln("while True:")
-        with gen.block():
-            gen.writeln("state.checkpoint()")
-            self.expression.generate(gen, matched_var, tmp_pairs)
-            gen.writeln(f"if {matched_var}:")
-            with gen.block():
-                gen.writeln(f"{count_var} += 1")
-                gen.writeln("state.ok()")
-                # Stop if we've already reached the maximum
-                gen.writeln(f"if {count_var} >= {self.number}:")
-                with gen.block():
-                    gen.writeln("break")
-                gen.writeln(f"parse_trivia(state, {tmp_pairs})")
-            gen.writeln("else:")
-            with gen.block():
-                gen.writeln("state.restore()")
-                gen.writeln("break")
-
-        gen.writeln(f"{matched_var} = True")
-        # Append successful children to the parent pair list
-        gen.writeln(f"{pairs_var}.extend({tmp_pairs})")
-        gen.writeln("# </RepeatMax>")
+        _unrolled(self).generate(gen, matched_var, pairs_var)
 
     def children(self) -> list[Expression]:
         """Return this expression's children."""
